@@ -295,7 +295,11 @@ func monC07sso(c *Ctx, r *SsoRun) {
 
 func init() {
 	props["C08"] = func(c *Ctx) { ssoSuite(c, monC08, "Monitor: persist count/arguments, reply kind, number of documents/forms.") }
-	props["C06"] = func(c *Ctx) { ssoSuite(c, monC06, "Monitor: independent evaluation of the necessary conditions vs. CreateAuthRequest.") }
+	props["C06"] = func(c *Ctx) {
+		libTimeParse(c)
+		ssoSuite(c, monC06, "Monitor: independent evaluation of the necessary conditions vs. CreateAuthRequest. Lib.Time.parseDefault vs time.Parse on a boundary corpus and a mutation stream.")
+	}
+	props["timeparse"] = libTimeParse
 	props["C05"] = func(c *Ctx) { ssoSuite(c, monC05, "Monitor: what the simulated SP actually signed vs. CreateAuthRequest.") }
 	props["survey-sso"] = func(c *Ctx) {
 		ssoSuite(c, func(c *Ctx, r *SsoRun) {
